@@ -231,6 +231,15 @@ Proof.
 Qed.
 Print Assumptions C14_dispatch_validated_usable_unsigned.
 
+(* Use of a decoded partial signature by the receive path (parsigex.NewEth2Verifier): value-or-error.
+   The only value the decoder can produce that is not a core.Eth2SignedData is a core.Signature under
+   DutySignature; the model refuses it with an error, all others go on to VerifyEth2SignedData. *)
+Theorem C14_verifier_use_not_eth2 :
+  forall V (sdec : stype -> bytes -> option V) d b t v,
+  sdispatch V sdec d b = Some (t, v) -> verifier_use t = VNotEth2 -> d = DSignature /\ t = TSignature.
+Proof. exact not_eth2_only_signature. Qed.
+Print Assumptions C14_verifier_use_not_eth2.
+
 (* ---- deterministic: encoding is a function of the value; for sets, of the map and not of the order
         in which Go's map iteration lists it, hence equal sets give equal consensus hashes -------- *)
 Theorem C14_encode_deterministic :
